@@ -235,6 +235,9 @@ class LifeHarness:
         oracles: tuple[Any, ...] = (),
         prune: bool = True,
         horizon: float = 400.0,
+        addresses: tuple[str, ...] = ("10.0.0.1",),
+        dns_answer: tuple[str, ...] = ("10.0.0.7",),
+        legal_only: bool = False,
     ) -> None:
         self.noise = noise
         self.seed = seed
@@ -255,6 +258,9 @@ class LifeHarness:
         self.oracles = oracles
         self.prune = prune
         self.horizon = horizon
+        self.addresses = addresses
+        self.dns_answer = dns_answer
+        self.legal_only = legal_only
         self.can_fp = True
 
     # --- world construction and seeds -------------------------------------------------------------
@@ -265,6 +271,7 @@ class LifeHarness:
             login=self.login,
             password=self.password,
             expected_name=self.expected_name,
+            addresses=self.addresses,
         )
         for o in self.oracles:
             o.attach(w)
@@ -323,6 +330,16 @@ class LifeHarness:
             w.mon()
             w.drain()
             return w
+        if s == "req_disc_pending":
+            req = mk("DeviceInfoRequest")
+            rtype = getattr(env.pb(), "DeviceInfoResponse")
+            w.spawn("req", lambda: w.conn.send_message_await_response(req, rtype))
+            w.mon()
+            w.drain()
+            w.spawn("disc", w.conn.disconnect)
+            w.mon()
+            w.drain()
+            return w
         if s == "disc_pending":
             w.spawn("disc", w.conn.disconnect)
             w.mon()
@@ -349,6 +366,10 @@ class LifeHarness:
             if u in self.user and u not in w.tasks:
                 if u == "finish" and w.outcome("start") != "ok":
                     continue
+                if u == "finish" and self.legal_only and w.state() != "SOCKET_OPENED":
+                    continue
+                if u == "start" and self.legal_only and w.state() != "INITIALIZED":
+                    continue
                 base.append(u)
         if "force" in self.user and not w.force_called:
             base.append("force")
@@ -361,8 +382,15 @@ class LifeHarness:
                 base.append("start2")
             if "finish2" not in w.tasks and ("finish" in w.tasks or w.outcome("start") != "ok"):
                 base.append("finish2")
+        if any(not f.done() for f, _ in w.net.gai_pending):
+            base += ["dns:ok", "dns:fail"]
+        conn_socks = w.net.connecting()
+        if len(conn_socks) > 1:
+            # several happy-eyeballs attempts in flight: decide them individually
+            for cs in conn_socks:
+                base += [f"tcp:ok@{cs.fd}", f"tcp:err@{cs.fd}"]
         s = w.sock
-        if s is not None and not s.closed:
+        if s is not None and not s.closed and len(conn_socks) <= 1:
             if s.connect_called is not None and s.connect_result is None:
                 base += ["tcp:ok", "tcp:err", "tcp:okrst"]
             elif s.connect_result == 0:
@@ -443,6 +471,21 @@ class LifeHarness:
         elif label == "tcp:err":
             kind = "io"
             w.io_connect(w.sock, errno.ECONNREFUSED)
+        elif label.startswith("tcp:ok@") or label.startswith("tcp:err@"):
+            kind = "io"
+            fd = int(label.split("@")[1])
+            cs = next(x for x in w.net.sockets if x.fd == fd)
+            w.io_connect(cs, 0 if label.startswith("tcp:ok@") else errno.ECONNREFUSED)
+        elif label in ("dns:ok", "dns:fail"):
+            from .simnet import v4
+
+            for fut, (host, port) in w.net.gai_pending:
+                if not fut.done():
+                    if label == "dns:ok":
+                        fut.set_result([v4(a, port) for a in self.dns_answer])
+                    else:
+                        fut.set_exception(OSError(-2, "Name or service not known"))
+            w.note("dns", label)
         elif label == "tcp:okrst":
             kind = "io"
             w.sock.peer_gone = True  # connect succeeds, then the peer is gone: getpeername() fails with ENOTCONN
